@@ -163,7 +163,7 @@ func drawBytes(rt *rapid.T, label string) []byte {
 }
 
 func TestBinary(t *testing.T) {
-	harness.Rapid(t, 56000, 900000, func(rt *rapid.T, c *harness.Case) {
+	harness.Rapid(t, 48000, 900000, func(rt *rapid.T, c *harness.Case) {
 		data := drawBytes(rt, "data")
 		nbits := int64(len(data)) * 8
 		if len(data) > 0 && rapid.IntRange(0, 7).Draw(rt, "cut") == 0 {
@@ -287,7 +287,7 @@ func drawSubPath(rt *rapid.T, top *decode.Value, maxNodes int) []int {
 
 func TestTree(t *testing.T) {
 	buckets := treegen.Buckets(corpusMaxBytes)
-	harness.Rapid(t, 44000, 700000, func(rt *rapid.T, c *harness.Case) {
+	harness.Rapid(t, 40000, 700000, func(rt *rapid.T, c *harness.Case) {
 		var top *decode.Value
 		var src treeSource
 		if len(buckets) == 0 || rapid.IntRange(0, 9).Draw(rt, "source") < 7 {
